@@ -747,7 +747,9 @@ class SymbolicModeCM(StackMixin, ModeMixin, LibModel):
         a.path.append('block:completes')
         b = st.clone()
         b.path.append('block:raises')
-        return [Outcome(a), Outcome(b, RAISE, C(Ref('exc', 'ExceptionInBlock')))]
+        c = st.clone()
+        c.path.append('block:raises-a-BaseException')        # KeyboardInterrupt, SystemExit, GeneratorExit: not an Exception
+        return [Outcome(a), Outcome(b, RAISE, C(Ref('exc', 'ExceptionInBlock'))), Outcome(c, RAISE, C(Ref('exc', 'KeyboardInterrupt')))]
 
     def on_yield(self, eng, st, v, ordinal, node):
         raise OutOfSubset("unexpected yield")
@@ -781,6 +783,8 @@ class SymbolicModeCM(StackMixin, ModeMixin, LibModel):
         kind = {NEXT: 'normal', RETURN: 'normal', RAISE: 'exception'}.get(o.sig, o.sig)
         if o.sig == RAISE and isinstance(o.val, C) and isinstance(o.val.v, Ref) and o.val.v.name != 'ExceptionInBlock':
             kind = 'exception:' + o.val.v.name
+        if o.sig == RAISE and isinstance(o.val, C) and isinstance(o.val.v, Ref) and o.val.v.name == 'KeyboardInterrupt':
+            kind = 'base-exception'
         eng.oblige(o.st, "C08/no-generator-of-the-package-suspends-inside-a-mode-block", z3.BoolVal(not self.suspended_mode_blocks()))
         eng.oblige(o.st, f"C08/exit@{kind}/mode-restored", o.st.ghost['mode'] == o.st.ghost['mode0'])
         eng.oblige(o.st, f"C08/exit@{kind}/expression-stack-restored", o.st.ghost['stack'] == o.st.ghost['stack0'])
